@@ -20,4 +20,14 @@ example : (match createRules exCfg (exChain "mid") [] [] with
 example : (match tokenise "RULE low SUPERIORS mid, top, mid CUTOFF" with
     | .ok toks => supListsDistinct toks
     | .error _ => true) = false := by decide +kernel
+/-- base, then base + `extra`, then base + a rule below `extra`: the last is rejected (superior not
+    defined in the files given), the base list still has one rule -/
+example :
+    let base := exHead "base" ++ "a"
+    let x := exHead "extra" ++ "b"
+    let y := "RULE other CATEGORY cat SUPERIORS extra CUTOFF 1 NEIGHBOURHOOD 1 CONDITIONS c"
+    let r := Continuations.run exCfg [(none, base), (some 0, x), (some 0, y)] []
+    (r.1.map fun o => (Continuations.outcome r.2 o).toOption.map fun l => l.map (·.name),
+     r.2.map fun l => l.map (·.name)) =
+    ([some ["base"], some ["base", "extra"], none], [["base"], ["base", "extra"]]) := by decide +kernel
 end ASV.C02
